@@ -21,6 +21,10 @@ import (
 // the frame and read back exactly the model (absent property = zero value).
 
 func checkC02(c caseC01) (m model.Packet, frame []byte, sig, msg string) {
+	guard.SetCurrent(func() []byte {
+		return mustJSON(vf.Failure{Property: "C02", Kind: "hang", Case: mustJSON(c), Signature: "hang", Message: "a library call made for this case did not return"})
+	})
+	defer guard.SetCurrent(nil)
 	var built mq.ControlPacket
 	var berr error
 	if pan := guard.Call(func() { built, m, berr = c.build() }); pan != nil {
